@@ -693,6 +693,93 @@ def connect_routing_rule(prog, rep):
     return n
 
 
+def failed_register_rule(prog, rep):
+    """A registration that was refused is not cancelled: from the failure edge of events_network_register() no path reaches
+    events_network_cancel() for that descriptor and direction, nor the unit's own cancel routine (which cancels whatever is
+    registered for the descriptor -- when the refusal was EEXIST, that is another request's registration)."""
+    n = 0
+    for up, (rec, rel, ctor, cancel) in UNITS.items():
+        u = prog.unit(up)
+        for f in u.funcs:
+            if f.file != up:
+                continue
+            for c in f.calls("events_network_register"):
+                for b in f.blocks.values():
+                    if b.cond is None or len(b.succs) != 2:
+                        continue
+                    for truth, sx in ((True, b.succs[0]), (False, b.succs[1])):
+                        if sx is None:
+                            continue
+                        if not any(Le is not None and Le.strip() is c and op == "!=" and R == ("c", 0) for op, L, R, Le, _ in cond_atoms(b.cond, truth)):
+                            continue
+                        n += 1
+                        seen, work, bad = set(), [sx], None
+                        while work and bad is None:
+                            nb = work.pop()
+                            if nb is None or nb in seen:
+                                continue
+                            seen.add(nb)
+                            for e in f.blocks[nb].elems:
+                                if e.cls == "CallExpr" and e.callee == cancel:
+                                    bad = e
+                                if e.cls == "CallExpr" and e.callee == "events_network_cancel" and e.arg(0) is not None and c.arg(2) is not None and \
+                                        strip_ids(norm(e.arg(0))) == strip_ids(norm(c.arg(2))) and norm(e.arg(1)) == norm(c.arg(3)):
+                                    bad = e
+                            work.extend(f.blocks[nb].succs)
+                        rep.check(bad is None, "N3", "%s: a refused registration is not cancelled" % f.name, (bad.where if bad is not None else c.where),
+                                  "reached from the failure edge of %s: nothing of this request is registered there, so the cancellation removes whatever "
+                                  "another request has registered for the descriptor" % c.text[:50], function=f.name, construct="cancel-after-refusal")
+    return n
+
+
+def sync_callback_rule(prog, rep, up, ctors):
+    """The caller's callback is never invoked from inside the call that creates the request ("ends with exactly one callback" is
+    promised to a caller that has the request's handle, which it has only once the creating call has returned; a completion from
+    within it runs the caller's code before the caller has stored the handle, and typically frees what the creating call is about to
+    return or still uses).  Decided on the unit's direct-call graph: from each creating function no chain of direct calls reaches
+    a function that calls through a function pointer stored in the request."""
+    u = prog.unit(up)
+    completers = {}
+    for f in u.funcs:
+        if f.file != up:
+            continue
+        for e in f.all_elems():
+            if e.cls == "CallExpr" and e.callee is None:
+                k = e.kid(0)
+                t = norm(k) if k is not None else None
+                while t is not None and t[0] in ("cast", "*") and len(t) > 1 and isinstance(t[-1], tuple):
+                    t = t[-1]
+                if t is not None and t[0] == "." and t[1][0] == "*":
+                    completers[f.name] = e
+    n = 0
+    for cn in ctors:
+        c = u.func(cn)
+        if c is None:
+            continue
+        n += 1
+        seen, work, bad = {cn: None}, [cn], None
+        while work and bad is None:
+            g = u.func(work.pop())
+            if g is None:
+                continue
+            for e in g.calls():
+                if e.callee and e.callee not in seen and u.func(e.callee) is not None and u.func(e.callee).file == up:
+                    seen[e.callee] = (g.name, e)
+                    if e.callee in completers:
+                        bad = e.callee
+                        break
+                    work.append(e.callee)
+        chain = []
+        x = bad
+        while x is not None and seen.get(x) is not None:
+            chain.append(x)
+            x = seen[x][0]
+        rep.check(bad is None, "N7-async", "%s never completes the request it is creating" % cn, (seen[bad][1].where if bad else c.loc),
+                  "%s -> %s calls the caller's callback (%s) before %s has returned the request's handle" % (cn, " -> ".join(reversed(chain)), (completers[bad].text[:40] if bad else ""), cn),
+                  function=cn, construct="sync-callback")
+    return n
+
+
 def closed_fd_rule(prog, rep):
     """A descriptor that has been closed does not stay in the request: after close(C->s) the field is overwritten (with -1
     or the next socket) on every path before the function returns, unless the request itself is released.  The completion
@@ -1127,6 +1214,10 @@ def run(tier):
                 n6_relational(prog, rep, up, L)
         n1(prog, rep)
         n4(prog, rep)
+        if sum(sync_callback_rule(prog, rep, up_, (UNITS[up_][2],)) for up_ in UNITS) < 4:
+            rep.defer_broken("N7: fewer than 4 request constructors found")
+        if failed_register_rule(prog, rep) < 3:
+            rep.defer_broken("N3: fewer than 3 tested registrations found in the request units")
         if connect_routing_rule(prog, rep) < 7:
             rep.defer_broken("N4: fewer than 7 routing obligations found in network_connect.c")
         if owned_fd_rule(prog, rep) < 4:
@@ -1152,6 +1243,7 @@ def run(tier):
         # one callback ... or the call reports failure"): the rules of C14 on the four request units, acquirers discovered library-wide
         wprog = ir.Program(None, cfg)
         c14.leak_rules(wprog, rep, only_files=list(UNITS))
+        c14.destroy_then_fail_rule(wprog, rep, only_files=["events/events_network.c"])     # a refused registration has not disturbed an accepted one
         c14.reported_rule(wprog, rep, only_files=list(UNITS))
     n = len(configs)
     rep.require_min("LIN", 10 * n)
